@@ -11,7 +11,7 @@ LEVEL = {
 # scenarios: (scenario name, build, fraction of the scenario's case count[, extra env])
 CHECKS = {
     "C01": {
-        "scenarios": [("C01-tcp", "vsim")],
+        "scenarios": [("C01-tcp", "vsim"), ("C01-tcp", "vreal")],
         "rule": "cases drawn by a seeded generator over (sessions, multiplexing, chunk schedule per direction, "
                 "client/server traffic pattern, per-session write/read size sequences incl. boundary sizes); "
                 "a case is non-trivial if application bytes were compared; distinct = distinct hash of "
